@@ -289,3 +289,89 @@ Example c12_nonvacuous_drop :
   runnable (fst cw') (snd cw') = [2] /\ tasks (fst cw') = [[0]; []; [0]] /\
   wk (ext (snd cw')) 2 = Some (0, 1, true).
 Proof. vm_compute. repeat split. Qed.
+
+(* ==== Round 4: interleavings finer than polls (multi-threaded executors) and schedule independence ====
+   [mrun c ms] (C12/FineModel.v) folds ONE atomic action of a task (wait / hit / begin / tick / complete) over ANY
+   list of task ids: between two lookups of one poll, and between the start of the supplier call and its first
+   answer, any other task may take any number of steps — what two worker threads polling two tasks at the same
+   time can produce.  Unbounded tasks, lookups, keys, suspensions, as everywhere above. *)
+From Coq Require Import Permutation.
+From RM Require Import C12.FineModel C12.FineProofs.
+
+(* every poll schedule of the model above is a micro schedule (so the fine theorems subsume the coarse ones) *)
+Theorem c12_polls_are_micro_schedules : forall (c : config) (sched : list task),
+  exists ms, state_eq (mrun c ms) (run c sched).
+Proof. exact run_refines. Qed.
+Print Assumptions c12_polls_are_micro_schedules.
+
+(* safety under every micro schedule: supplier asked at most once per key; every finished lookup carries the
+   key's single scripted answer (failures included) and is the lookup issued at that position;
+   processed <= requested <= distinct keys *)
+Theorem c12_fine_safety : forall (c : config) (ms : list task),
+  (forall k, supplier_calls (mrun c ms) k <= 1) /\
+  (forall t i k o, task_result (mrun c ms) t i = Some (k, o) ->
+     o = outc c k /\ nth_error (nth t (tasks c) []) i = Some k) /\
+  processed (mrun c ms) <= requested (mrun c ms) /\ requested (mrun c ms) <= distinct_keys c.
+Proof. exact fine_safety. Qed.
+Print Assumptions c12_fine_safety.
+
+(* at quiescence, however it was reached: each task holds exactly the scripted answers of its lookups in order,
+   every requested key was fetched exactly once, requested = processed = distinct keys *)
+Theorem c12_fine_quiescent : forall (c : config) (ms : list task),
+  all_done c (mrun c ms) = true ->
+  (forall t, results (sh (mrun c ms)) t = map (fun k => (k, outc c k)) (nth t (tasks c) [])) /\
+  (forall k, In k (concat (tasks c)) -> supplier_calls (mrun c ms) k = 1) /\
+  requested (mrun c ms) = distinct_keys c /\ processed (mrun c ms) = distinct_keys c.
+Proof. exact fine_quiescent. Qed.
+Print Assumptions c12_fine_quiescent.
+
+(* no stuck state and bounded work under micro schedules: the measure (micro steps still needed) starts at
+   work + number of lookups, no step of any task (spurious ones included) increases it, and while some task is
+   unfinished some task's next step strictly lowers it — so every schedule that keeps stepping a task whose step
+   is not a no-op ends after at most that many effective steps *)
+Theorem c12_fine_progress : forall (c : config) (ms : list task),
+  (mpotential c (mrun c ms) <= work c + length (concat (tasks c))) /\
+  (forall t, mpotential c (mstep c t (mrun c ms)) <= mpotential c (mrun c ms)) /\
+  (all_done c (mrun c ms) = false ->
+     exists t, t < ntasks c /\ mpotential c (mstep c t (mrun c ms)) < mpotential c (mrun c ms)).
+Proof. exact fine_progress. Qed.
+Print Assumptions c12_fine_progress.
+
+(* everything a requester or the CLI can observe at the end is independent of the schedule: per-task results,
+   the set of supplier calls (the log is a permutation), the remembered value per key, both counters.  This is
+   what justifies comparing runs whose schedule the harness does not control (tokio multi-thread, FuturesUnordered)
+   with ANY complete run of the model. *)
+Theorem c12_quiescent_observables_schedule_independent : forall (c : config) (m1 m2 : list task),
+  all_done c (mrun c m1) = true -> all_done c (mrun c m2) = true ->
+  (forall t, results (sh (mrun c m1)) t = results (sh (mrun c m2)) t) /\
+  Permutation (calls (sh (mrun c m1))) (calls (sh (mrun c m2))) /\
+  (forall k, value (sh (mrun c m1)) k = value (sh (mrun c m2)) k) /\
+  requested (mrun c m1) = requested (mrun c m2) /\ processed (mrun c m1) = processed (mrun c m2).
+Proof. exact fine_independent. Qed.
+Print Assumptions c12_quiescent_observables_schedule_independent.
+
+(* ... the same for poll schedules *)
+Theorem c12_poll_schedule_independent : forall (c : config) (s1 s2 : list task),
+  all_done c (run c s1) = true -> all_done c (run c s2) = true ->
+  (forall t, results (sh (run c s1)) t = results (sh (run c s2)) t) /\
+  Permutation (calls (sh (run c s1))) (calls (sh (run c s2))) /\
+  (forall k, value (sh (run c s1)) k = value (sh (run c s2)) k) /\
+  requested (run c s1) = requested (run c s2) /\ processed (run c s1) = processed (run c s2).
+Proof. exact poll_independent. Qed.
+Print Assumptions c12_poll_schedule_independent.
+
+(* a micro schedule no poll schedule can produce: the supplier never suspends (susp = 0), yet task 1 observes
+   the slot locked between task 0's begin and complete (a poll would run both in one go); then both finish,
+   two different orders of completion give the same observables; the failure (OLoad) is remembered *)
+Example c12_nonvacuous_fine :
+  let c := {| tasks := [[0; 1]; [0]; [1; 0]]; susp := fun _ => 0; outc := fun k => if Nat.eqb k 0 then OLoad else OOk;
+              leaf := fun _ => 0 |} in
+  lock (sh (mrun c [0; 1])) 0 = Some 0 /\ snd (pcs (mrun c [0; 1]) 1) = Wait /\
+  requested (mrun c [0; 1; 2]) = 2 /\ processed (mrun c [0; 1; 2]) = 0 /\
+  all_done c (mrun c [0; 1; 2; 2; 0; 0; 1; 2; 0; 2]) = true /\
+  all_done c (mrun c [2; 2; 2; 1; 0; 2; 0; 0; 1]) = true /\
+  calls (sh (mrun c [0; 1; 2; 2; 0; 0; 1; 2; 0; 2])) = [0; 1] /\
+  calls (sh (mrun c [2; 2; 2; 1; 0; 2; 0; 0; 1])) = [1; 0] /\
+  results (sh (mrun c [2; 2; 2; 1; 0; 2; 0; 0; 1])) 1 = [(0, OLoad)] /\
+  mpotential c (init c) = 10.
+Proof. vm_compute. repeat split. Qed.
